@@ -2,6 +2,7 @@
 import itertools
 import json
 import logging
+import re
 import warnings
 
 import variant_lib as L
@@ -25,7 +26,11 @@ RULE = ("candidate lists of 0-4 variants (ECU variants with 0-3 patterns, base v
         "real parser with the real encode_request/decode ('xml'; the reference and the model take the matching parameters as "
         "written in the document, the matcher the loaded objects; 'xml-text': blank padded fixed-length ASCII identification "
         "texts in structures and fields, expected values derived from the decoded responses, with and without white space at "
-        "their ends -- white space in an expected value is significant). distinct = distinct (configuration, ECU table, strict, "
+        "their ends -- white space in an expected value is significant). Service short names (all builders) range over the legal ODX "
+        "short names: digit first, python keywords, names of list / NamedItemList attributes, leading underscores, `_<n>` suffixes, "
+        "names differing only in case, prefixes of each other, 128 characters; layers with two or three such confusable names in "
+        "either order; references to a name that is merely similar to a service of the layer (malformed streams: must be "
+        "unresolvable); renamed structure members of the same kinds (object builder). distinct = distinct (configuration, ECU table, strict, "
         "cache, script); non-trivial = at least one request was yielded")
 TRUSTED = ["model lean/OdxVerif/Model/Variant.lean is hand-written; tied to odxtools/variantmatcher.py + matchingparameter.py by "
            "comparing request traces, outcomes, matcher state and cache contents",
@@ -124,10 +129,89 @@ PATHS = [("id",), ("info", "type"), ("info", "sub", "x"), ("items", "type"), ("t
 ODD_PATHS = [("info",), ("id", "x"), ("items",), ("nul",), ("nul", "x"), ("tab", "type", "x"), ("nope",), ("", "id"), ("info", "", "type")]
 
 
-def gen_services(rng, vi, names, mode, alphabet, allow_float, malformed, shared_tables):
+# ---- short names. An ODX short name is any text over [a-zA-Z0-9_] (1..128 characters): it may start with a digit, be a
+# python keyword or the name of an attribute of a python list / of odxtools' NamedItemList, and two short names of one layer
+# may differ only by a leading underscore, a `_<n>` suffix or the case of a letter. A DIAG-COMM-SNREF / OUT-PARAM-IF-SNREF
+# names exactly the object with that short name -- never one whose name is merely similar, and never nothing when the object exists.
+CLASSIC_NAMES = ["S0", "S1", "S2"]
+# triples whose members a lookup through some normalised/mangled form of the name would confuse with each other
+CONFUSABLE_NAMES = [
+    ["1x", "_1x", "_1x_2"], ["1", "_1", "1_"], ["22F190_ReadIdent", "_22F190_ReadIdent", "22f190_readident"],
+    ["pass", "_pass", "Pass"], ["class", "in", "None"], ["lambda", "_lambda", "lambda_2"],
+    ["index", "index_2", "_index"], ["count", "get", "keys"], ["append", "items", "values"], ["copy", "sort", "pop"],
+    ["_item_dict", "_item_dict_2", "item_dict"], ["__len__", "__class__", "__dict__"],
+    ["S0", "s0", "S0_2"], ["S", "S0", "S00"], ["S0", "_S0", "S0_"], ["_", "__", "_2"], ["identService", "IdentService", "identservice"],
+    ["0", "00", "_0"], ["x" * 128, "x" * 127, "x" * 127 + "_"], ["True", "true", "_True"], ["S1", "S1_2", "S1_3"],
+]
+NAME_POOL = sorted({n for t in CONFUSABLE_NAMES for n in t} | {"ReadIdent", "Ident_Read", "2S", "def", "is", "remove", "insert",
+                                                                  "extend", "clear", "reverse", "_get_item_key", "A", "a1", "Z_9"})
+# response parameter / structure member names (object family): the names of `gen_tree` and what they may be renamed to
+TREE_KEYS = ["id", "info", "type", "sub", "x", "items", "tab"]
+ODD_KEYS = ["1d", "_1d", "1", "0x", "pass", "_pass", "class", "None", "index", "count", "get", "keys", "values", "pop", "Id", "ID",
+            "id_2", "_id", "id_", "Type", "_type", "X", "_x", "__len__", "_item_dict", "2nd", "in"]
+
+
+def pick_names(rng):
+    """the three service short names of a configuration"""
+    r = rng.random()
+    if r < 0.4:
+        return list(CLASSIC_NAMES)
+    if r < 0.8:
+        t = list(rng.choice(CONFUSABLE_NAMES))
+        rng.shuffle(t)
+        return t
+    return rng.sample(NAME_POOL, 3)
+
+
+def name_kind(n):
+    import keyword
+    if n[:1].isdigit():
+        return "digit-first"
+    if keyword.iskeyword(n):
+        return "python-keyword"
+    if hasattr(list, n) or n in ("keys", "values", "items", "get", "_item_dict", "_get_item_key", "_add_attribute_item"):
+        return "list-attribute"
+    if n.startswith("_"):
+        return "underscore-first"
+    if re.fullmatch(r".*_\d+", n):
+        return "numeric-suffix"
+    if len(n) > 64:
+        return "long"
+    return "plain"
+
+
+def near_miss_names(rng, name):
+    """texts similar to `name` (what a name-mangling / normalising look-up would treat like it)"""
+    return [("_" + name)[:128], name + "_2", (name + "_")[:128], name.lower(), name.upper(), name.swapcase(), name[:-1], name[1:],
+            name + "0", name.lstrip("_"), re.sub(r"_\d+$", "", name), " " + name, name + " "]
+
+
+def pick_keymap(rng):
+    """injective renaming of the member names used by gen_tree (identity for most configurations)"""
+    if rng.random() < 0.7:
+        return {}
+    ks = rng.sample(TREE_KEYS, rng.choice([1, 1, 2, 3]))
+    return dict(zip(ks, rng.sample(ODD_KEYS, len(ks))))
+
+
+def rename_tree(j, m):
+    if not m:
+        return j
+    if j[0] == "d":
+        return ["d", [[m.get(k, k), rename_tree(v, m)] for k, v in j[1]]]
+    if j[0] in "lt":
+        return [j[0], [rename_tree(v, m) for v in j[1]]]
+    return j
+
+
+def rename_paths(paths, m):
+    return [tuple(m.get(c, c) for c in p) for p in paths]
+
+
+def gen_services(rng, vi, names, mode, alphabet, allow_float, malformed, shared_tables, names_all=CLASSIC_NAMES, keymap=None):
     svcs = []
     for n in names:
-        k = int(n[1:])
+        k = names_all.index(n)
         if mode == "shared":
             req = "22%02x" % k
         elif mode == "distinct":
@@ -148,12 +232,12 @@ def gen_services(rng, vi, names, mode, alphabet, allow_float, malformed, shared_
                 for h in alphabet:
                     if h.startswith("62"):
                         if rng.random() < 0.85:
-                            t[h] = ["val", gen_tree(rng, allow_float, malformed)]
+                            t[h] = ["val", rename_tree(gen_tree(rng, allow_float, malformed), keymap)]
                     elif h == "":
                         if rng.random() < 0.05:
-                            t[h] = ["val", gen_tree(rng, allow_float, malformed)]
+                            t[h] = ["val", rename_tree(gen_tree(rng, allow_float, malformed), keymap)]
                     elif rng.random() < 0.1:
-                        t[h] = ["val", gen_tree(rng, allow_float, malformed)]
+                        t[h] = ["val", rename_tree(gen_tree(rng, allow_float, malformed), keymap)]
                     if malformed and rng.random() < 0.03:
                         t[h] = ["raise", rng.choice(["odx", "foreign"])]
                 pos.append(t)
@@ -186,21 +270,32 @@ def candidate_targets(v, paths=None):
     return out
 
 
-def gen_param(rng, v, base, malformed, names):
-    targets = candidate_targets(v)
+def gen_param(rng, v, base, malformed, names, keymap=None):
+    paths, odd_paths = rename_paths(PATHS, keymap or {}), rename_paths(ODD_PATHS, keymap or {})
+    targets = candidate_targets(v, paths)
     if targets and rng.random() < 0.7:
         sn, path, leaf = rng.choice(targets)
         exp = render_expected(rng, leaf)
     else:
         sn = rng.choice([s["name"] for s in v["services"]] or names)
-        path = rng.choice(PATHS)
+        path = rng.choice(paths)
         exp = rng.choice(["a", "b", "1", "AB", "255", "0X1A", "None", "True"])
     if rng.random() < 0.08:
         exp = pad_expected(rng, exp)
     if malformed and rng.random() < 0.25:
-        path = rng.choice(ODD_PATHS)
-    if malformed and rng.random() < 0.05:
-        sn = "S9"            # no such service
+        path = rng.choice(odd_paths)
+    if malformed and rng.random() < 0.06:
+        # a member name that is merely similar to the one the response has
+        path = tuple(rng.choice(near_miss_names(rng, c)) if rng.random() < 0.6 else c for c in path)
+        path = tuple(c for c in path if "." not in c) or ("nope",)
+    if malformed and rng.random() < 0.08:
+        # no such service in this layer: an unused name, the name of a service that only another candidate has, or a text that is
+        # merely similar to the name of a service of this layer (what a mangled / normalised look-up would accept)
+        have = {s["name"] for s in v["services"]}
+        pool = ["S9"] + [n for n in names if n not in have]
+        for n in sorted(have):
+            pool += [m for m in near_miss_names(rng, n) if m not in have]
+        sn = rng.choice(pool)
     if len(path) == 1 and rng.random() < 0.6:
         snref, pth = path[0], None
     else:
@@ -224,7 +319,8 @@ def gen_cfg(rng, malformed=False, allow_float=False):
     mode = rng.choice(["shared", "shared", "distinct", "collide"])
     alphabet = rng.choice([["6201", "6202"], ["6201", "6202", ""], ["6201", "7f2231", ""], ["6201", "6202", "7f2231"],
                            ["6201", "6202", "7f2231", ""], ["6201", ""]])
-    names_all = ["S0", "S1", "S2"]
+    names_all = pick_names(rng)
+    keymap = pick_keymap(rng)
     shared_tables = {}
     cands = []
     for vi in range(n):
@@ -232,16 +328,16 @@ def gen_cfg(rng, malformed=False, allow_float=False):
         if malformed and rng.random() < 0.06:
             cands.append({"kind": "other", "name": f"v{vi}", "patterns": [], "services": [], "gneg": []})
             continue
-        names = sorted(rng.sample(names_all, rng.choice([1, 2, 2, 3])))
+        names = rng.sample(names_all, rng.choice([1, 2, 2, 3]))      # any order: which of two similar names comes first matters
         gneg = []
         if rng.random() < 0.3:
-            gneg.append({h: ["val", ["d", [["sid", ["i", "127"]], ["nrc", gen_leaf(rng, False)], ["id", gen_leaf(rng, False)]]]]
+            gneg.append({h: ["val", rename_tree(["d", [["sid", ["i", "127"]], ["nrc", gen_leaf(rng, False)], ["id", gen_leaf(rng, False)]]], keymap)]
                          for h in alphabet if h.startswith("7f")})
         v = {"kind": kind, "name": f"v{vi}", "patterns": [], "gneg": gneg,
-             "services": gen_services(rng, vi, names, mode, alphabet, allow_float, malformed, shared_tables)}
+             "services": gen_services(rng, vi, names, mode, alphabet, allow_float, malformed, shared_tables, names_all, keymap)}
         npat = rng.choice([0, 1, 1, 2, 3]) if kind == "ecu" else rng.choice([0, 1, 1, 1])
         for _ in range(npat):
-            v["patterns"].append([gen_param(rng, v, kind == "base", malformed, names_all) for _ in range(rng.choice([1, 1, 2, 2, 3]))])
+            v["patterns"].append([gen_param(rng, v, kind == "base", malformed, names_all, keymap) for _ in range(rng.choice([1, 1, 2, 2, 3]))])
         cands.append(v)
     cfg = {"cands": cands}
     if n >= 2 and rng.random() < 0.05:
@@ -448,19 +544,29 @@ XML_ODD = [("info", None), (None, "id.x"), ("nope", None), ("items", None)]
 XML_EXP = ["5", "6", "7", "8", "9", "ABCD", "abcd", "00FF", "0x123", "0X123", "49", "17", "34", "16", "98", "127", "1", "x"]
 
 
+def xml_no_such_service(rng, svcs, names_all):
+    """a DIAG-COMM-SNREF that names no service of the layer: unused, only in another layer, or merely similar to one"""
+    have = {n for n, _ in svcs}
+    pool = ["S9"] + [n for n in names_all if n not in have]
+    for n in sorted(have):
+        pool += [m for m in near_miss_names(rng, n) if m and m not in have and re.fullmatch(r"[A-Za-z0-9_]+", m)]
+    return rng.choice(pool)
+
+
 def gen_xml_layers(rng, malformed):
     n = rng.choice([1, 2, 2, 3, 4])
     scenario = rng.choice(["ecu", "base", "mixed"])
     layers = []
+    names_all = pick_names(rng)
     for i in range(n):
         kind = scenario if scenario != "mixed" else rng.choice(["ecu", "base"])
-        svcs = [(f"S{k}", k + 1) for k in sorted(rng.sample(range(2), rng.choice([1, 2])))]
+        svcs = [(names_all[k], k + 1) for k in rng.sample(range(2), rng.choice([1, 2]))]
         pats = []
         for _ in range(rng.choice([0, 1, 1, 2, 3]) if kind == "ecu" else rng.choice([0, 1, 1])):
             pat = []
             for _ in range(rng.choice([1, 1, 2, 3])):
                 snref, path = rng.choice(XML_ODD if (malformed and rng.random() < 0.3) else XML_TARGETS)
-                pat.append({"exp": rng.choice(XML_EXP), "svc": rng.choice(svcs)[0] if not (malformed and rng.random() < 0.05) else "S9",
+                pat.append({"exp": rng.choice(XML_EXP), "svc": rng.choice(svcs)[0] if not (malformed and rng.random() < 0.08) else xml_no_such_service(rng, svcs, names_all),
                             "snref": snref, "path": path, "phys": (rng.choice(["none", True, False]) if kind == "base" else None)})
             pats.append(pat)
         layers.append((f"L{i}", kind, svcs, pats))
@@ -482,10 +588,12 @@ def gen_xmltext(rng, malformed):
     n = rng.choice([1, 2, 2, 3, 4])
     scenario = rng.choice(["ecu", "ecu", "base", "mixed"])
     skel = []
+    names_all = pick_names(rng)
     for i in range(n):
         kind = scenario if scenario != "mixed" else rng.choice(["ecu", "base"])
-        ks = rng.choice([[2], [2], [0, 2], [1, 2], [0], [0, 1]])
-        skel.append((f"L{i}", kind, [(f"S{k}", k + 1) for k in ks], []))
+        ks = list(rng.choice([[2], [2], [0, 2], [1, 2], [0], [0, 1]]))
+        rng.shuffle(ks)
+        skel.append((f"L{i}", kind, [(names_all[k], k + 1) for k in ks], []))
     has_str = any(d >= 3 for l in skel for _, d in l[2])
     has_num = any(d < 3 for l in skel for _, d in l[2])
     pool = (XMLT_ALPHA_STR if has_str else []) + (XMLT_ALPHA_NUM if has_num else [])
@@ -516,8 +624,8 @@ def gen_xmltext(rng, malformed):
                     snref, pth = path[0], None
                 else:
                     snref, pth = None, ".".join(path)
-                if malformed and rng.random() < 0.05:
-                    sn = "S9"
+                if malformed and rng.random() < 0.08:
+                    sn = xml_no_such_service(rng, svcs, names_all)
                 pat.append({"exp": exp, "svc": sn, "snref": snref, "path": pth,
                             "phys": (rng.choice(["none", True, False]) if kind == "base" else None)})
             pats.append(pat)
@@ -534,9 +642,13 @@ def run_cfg(ctx, rng, fam, cfg0, objs, alphabet, witness_extra, pending, table_l
     for v in cfg0["cands"]:
         ctx.histo("kind", v["kind"])
         ctx.histo("patterns", len(v["patterns"]))
+        have = {s["name"] for s in v["services"]}
+        for n in have:
+            ctx.histo("service_short_name", name_kind(n))
         for pat in v["patterns"]:
             ctx.histo("params", len(pat))
             for p in pat:
+                ctx.histo("diag_comm_snref", name_kind(p["svc"]) if p["svc"] in have else "no-such-service")
                 ctx.histo("target", "snref" if p["snref"] is not None else "snpathref" if p["path"] is not None else "none")
     for ecu in tables:
         for strict in stricts:
